@@ -270,7 +270,6 @@ impl Uci {
             }
             UciCommand::UciNewGame => {
                 self.game = Game::new();
-                self.is_stopped.reset();
 
                 #[cfg(jgilchrist_tcheran_verif)]
                 {
@@ -343,6 +342,9 @@ impl Uci {
                 let search_restrictions = SearchRestrictions { depth: *depth };
 
                 let persistent_state = self.persistent_state.clone();
+
+                // A new search is starting, so we're no longer stopped
+                self.is_stopped.reset();
                 let is_stopped = self.is_stopped.clone();
 
                 #[cfg(jgilchrist_tcheran_verif)]
